@@ -146,6 +146,23 @@ class Lock:
 
 HOOK_FLAGS = "--cfg ohsl_verif"
 
+
+def sh_coq(cmd, cwd=None, timeout=900, tries=3):
+    """sh for coqc / coqchk / make invocations: a process that was KILLED (out of memory, timeout under load: exit 124/137/143
+    or no Coq error message at all) is run again, up to `tries` times; a genuine Coq error (the output contains "Error") is
+    returned at once.  Transient kills must not turn into violations."""
+    rc, out = 1, ""
+    for attempt in range(tries):
+        try:
+            rc, out = sh(cmd, cwd=cwd, timeout=timeout)
+        except subprocess.TimeoutExpired:
+            rc, out = 124, "timeout"
+        if rc == 0: return rc, out
+        killed = rc in (124, 137, 143, -9, -15) or "Killed" in out or "Error 137" in out or "Out of memory" in out or ("Error" not in out and "error" not in out)
+        if not killed: return rc, out
+        time.sleep(2 + 5 * attempt)
+    return rc, out
+
 def link_repo():
     """harness/Cargo.toml depends on ../.cache/repo: a symlink to /repo (or $VERIF_REPO for scratch worktrees)."""
     link = os.path.join(CACHE, "repo")
@@ -179,7 +196,15 @@ def coq_make(target, timeout=1500):
         rc, out = sh("./mkproject.sh", cwd=COQDIR, timeout=120)
         if rc != 0:
             return rc, out
-        rc, out = sh("timeout %d make -j%d %s 2>&1" % (timeout, NPROC, target), cwd=COQDIR, timeout=timeout + 30)
+        for attempt in range(3):
+            try:
+                rc, out = sh("timeout %d make -j%d %s 2>&1" % (timeout, NPROC, target), cwd=COQDIR, timeout=timeout + 30)
+            except subprocess.TimeoutExpired:
+                rc, out = 124, "timeout"
+            # a Coq error names a source location (File "...", line ...); a failure without one is a killed coqc
+            # (out of memory / timeout under load): build again (make resumes where it stopped)
+            if rc == 0 or 'File "' in out: break
+            time.sleep(3 + 5 * attempt)
     return rc, out
 
 # ----------------------------------------------------------------------------- proofs
@@ -311,7 +336,7 @@ def proof_step(pid, tier="quick"):
             f.write("From Coq Require Import String.\nFrom OV Require Import Props.%s.\n" % pid)
             for nm in chunks[k]:
                 f.write('Eval compute in "MARK:%s"%%string.\nPrint Assumptions %s.\n' % (nm, nm))
-        return sh("timeout 900 coqc -noglob -Q . OV -w -notation-overridden %s 2>&1" % q, cwd=COQDIR, timeout=930)
+        return sh_coq("timeout 900 coqc -noglob -Q . OV -w -notation-overridden %s 2>&1" % q, cwd=COQDIR, timeout=930)
     with ThreadPoolExecutor(max_workers=nchunk) as ex:
         results = list(ex.map(ask, range(nchunk)))
     shutil.rmtree(tdir, ignore_errors=True)
@@ -348,7 +373,7 @@ def proof_step(pid, tier="quick"):
     if tier == "thorough":
         # independent re-check of the compiled property file and everything it depends on
         res["obligations"] += 1
-        rc, out = sh("timeout 2400 coqchk -silent -o -Q . OV OV.Props.%s 2>&1" % pid, cwd=COQDIR, timeout=2500)
+        rc, out = sh_coq("timeout 2400 coqchk -silent -o -Q . OV OV.Props.%s 2>&1" % pid, cwd=COQDIR, timeout=2500, tries=2)
         m = re.search(r"\* Axioms:(.*?)\n\s*\n\* Constants/Inductives relying on type-in-type:(.*?)\n\s*\n\* Constants/Inductives relying on unsafe \(co\)fixpoints:(.*?)\n\s*\n\* Inductives whose positivity is assumed:(.*?)\n", out, re.S)
         if rc != 0 or not m:
             res["errors"].append("coqchk failed on Props/%s.vo:\n%s" % (pid, out[-1500:]))
@@ -436,7 +461,7 @@ def run_coq(terms, tag, imports, shard=250, timeout=900):
             f.write(COQ_HEADER % imports)
             for j, (cid, term) in enumerate(shards[k]):
                 f.write("Definition c%d : list Z := %s.\nEval vm_compute in c%d.\n" % (j, term, j))
-        rc, out = sh("timeout %d coqc -noglob -Q %s OV -w -notation-overridden %s 2>&1" % (timeout, COQDIR, path), timeout=timeout + 30, cwd=d)
+        rc, out = sh_coq("timeout %d coqc -noglob -Q %s OV -w -notation-overridden %s 2>&1" % (timeout, COQDIR, path), timeout=timeout + 30, cwd=d)
         if rc != 0:
             return k, None, out
         parts = re.split(r"(?m)^\s*=\s", out)[1:]
